@@ -17,6 +17,8 @@ use crate::ast::TypeKeyword;
 /// to the user during this pass.  Having run this pass, one can feel comfortable simply panicking
 /// when bad types are encountered in other passes like lowering.
 pub fn run<A: ast::Visitable>(ast: &A, ctx: &mut CompilerContext) -> Result<(), ErrorReported> {
+    #[cfg(truth_verif)]
+    crate::verif_hooks::pass("type_check");
     let checker = ExprTypeChecker { ctx };
     let mut v = Visitor { checker, errors: ErrorFlag::new(), cur_func_stack: vec![] };
     ast.visit_with(&mut v);
